@@ -635,6 +635,15 @@ func (l *lowerer) httpEndpoint(m *Method) *dt.Node {
 		}
 	}
 	for _, p := range h.Headers {
+		implicit := false
+		for _, ia := range m.ImplicitAuth {
+			if ia == p.Attr {
+				implicit = true
+			}
+		}
+		if implicit {
+			continue
+		}
 		b = append(b, dt.N("Header", dt.S(mapName(p))))
 	}
 	for _, p := range h.Cookies {
